@@ -47,7 +47,8 @@ PARTIAL = {
     'prop_unit subsets': 'Atoms: atoms_model_select covers every selection / order of properties (reading = '
         'constructing Atoms from the selected converted properties, defaults for a missing atype / pos). The System '
         'theorems are about writing all properties in dictionary order (the default of System.model / dump); a '
-        'System.model call that selects properties is not stated',
+        'System.model call that selects properties is not stated as a theorem (the model functions systemModel / systemRead '
+        'take any selection: 25 % of the System correspondence and oracle cases select and reorder properties)',
     'System objects': 'the object model (BoxObj / SysObj, BoxReach) covers the state that matters for this property - '
         'the reciprocal vectors a Box keeps - and the operations vects/origin setters, reciprocal_vects, position '
         'conversions, Box.model(model=), System.model; the other Box.set_* entry points (lengths, hi/los, abc) go '
@@ -277,7 +278,13 @@ def gen_sys(rng):
         masses = [rng.choice([None, rng.uniform(1, 200)]) for _ in range(natS)]
     else:
         masses = [rng.uniform(1, 200) for _ in range(rng.randint(0, natS))]
-    return {'kind': 'sys', 'via': rng.choice(['tree', 'json', 'xml']), 'w1': w1, 'w2': w2,
+    sel = None
+    if rng.random() < 0.25:
+        # System.model / dump with a selection of the properties in another order (atype / pos possibly left out)
+        chosen = [p for p in props if rng.random() < 0.7]
+        rng.shuffle(chosen)
+        sel = [{'name': p['name'], 'unit': p['unit']} for p in chosen]
+    return {'kind': 'sys', 'via': rng.choice(['tree', 'json', 'xml']), 'w1': w1, 'w2': w2, 'sel': sel,
             'box': _gen_box(rng), 'box_unit': _len_unit(rng),
             'pbc': [rng.random() < 0.6 for _ in range(3)], 'symbols': symbols, 'masses': masses,
             'natoms': natoms, 'props': props,
@@ -463,7 +470,7 @@ def _units_of(case):
     if k in ('uc', 'box', 'ec'):
         return [case['unit']]
     if case.get('sel') is not None:
-        return [eff_unit(e['name'], e['unit']) for e in case['sel']]
+        return [eff_unit(e['name'], e['unit']) for e in case['sel']] + ([case['box_unit']] if k == 'sys' else [])
     us = [eff_unit(p['name'], p['unit']) for p in case['props']]
     if k == 'sys':
         us.append(case['box_unit'])
@@ -793,9 +800,12 @@ def _run_real(case, r) -> RealRun:
             s = _mk_sys(case)
             r.extra['symbols'] = list(s.symbols)
             r.extra['masses'] = list(s.masses)
-            names = [p['name'] for p in case['props']]
-            units = [p['unit'] for p in case['props']]
+            chosen = case['sel'] if case.get('sel') is not None else case['props']
+            names = [p['name'] for p in chosen]
+            units = [p['unit'] for p in chosen]
             call = case.get('call', 'prop_unit')
+            if case.get('sel') is not None and call == 'default':
+                call = 'prop_unit'
             if call == 'default' and all(u is None for u in units):
                 fmtkw = {}
             elif call == 'lists':
@@ -987,9 +997,13 @@ def request_line(case, r: RealRun) -> str:
         syms = ' '.join('-' if s is None else s for s in symbols)
         masses = ' '.join('-' if m is None else cm.fr(m) for m in ms)
         pbc = ' '.join('1' if b else '0' for b in case['pbc'])
-        return (f"sys {via} {_u(case['box_unit'], r.fW, r.fR)} {_box_tokens(case['box'])} {pbc} "
+        line = (f"sys {via} {_u(case['box_unit'], r.fW, r.fR)} {_box_tokens(case['box'])} {pbc} "
                 f"{len(symbols)} {syms} {len(ms)} {masses} {case['natoms']} "
                 f"{len(case['props'])} {props}").replace('  ', ' ')
+        if case.get('sel') is not None:
+            line += f" sel {len(case['sel'])} " + ' '.join(f"{e['name']} {_u(e['unit'], r.fW, r.fR, e['name'])}"
+                                                           for e in case['sel'])
+        return line.strip()
     if k == 'ec':
         mk = r.extra.get('muK')
         mk = '- -' if mk is None or not all(x == x and abs(x) != float('inf') for x in mk) else f'{cm.fr(mk[0])} {cm.fr(mk[1])}'
@@ -1286,8 +1300,8 @@ def compare(case, r: RealRun, reply):
     if m['read'] is None:
         out.append('model refuses to read back; implementation read a value')
         return out
-    loose_names = {p['name'] for p in case.get('props', []) if eff_unit(p['name'], p['unit']) == 'scaled'} \
-        if k == 'sys' else set()
+    loose_names = {p['name'] for p in (case.get('sel') or case.get('props', []))
+                   if eff_unit(p['name'], p['unit']) == 'scaled'} if k == 'sys' else set()
     if k == 'sys':
         # a box-scaled property is read back through the re-read box, whose lengths are the written ones times
         # the box unit's factor ratio: the absolute rounding error scales with it
@@ -1657,7 +1671,7 @@ def oracle(ctx, case, r: RealRun):
         ctx.violate(f'{k}:{via}:natoms', f"{tag}: natoms {atoms.natoms} read back, {case['natoms']} written", {'case': case})
         return False
     eprops = case['props']
-    if k == 'atoms' and case.get('sel') is not None:
+    if case.get('sel') is not None:
         # a selection: atype and pos first (the constructor's defaults when not selected), then the others in order
         byname = {p['name']: p for p in case['props']}
         units = {e['name']: e['unit'] for e in case['sel']}
